@@ -187,7 +187,7 @@ def gen_scenarios(tier, seed, want_steps=False):
                                             CALL_SETS_THOROUGH, 2))
         out += list(er.systematic_scenarios(3, [1, 2], [True, False],
                                             CALL_SETS_QUICK[:2], 2))
-        nrand = 6000
+        nrand = 12000
     for i in range(nrand):
         if i % 5 == 4:
             out.append(er.director_scenario(rng))
@@ -539,6 +539,10 @@ EXPLORE_THOROUGH = EXPLORE_QUICK + [
     (2, [1, 2, 3, 5], [(4, False), (1, False), (6, True)]),
     (3, [1, 2, 3], [(4, True), (3, False), (2, True)]),
     (4, [1, 2], [(2, False), (3, True)]),
+    (3, [1, 2, 3], [(3, False), (2, False), (4, True)]),
+    (4, [1, 2, 3], [(3, False), (3, True)]),
+    (2, [1, 2, 3, 4, 5], [(5, False), (5, True), (3, True)]),
+    (2, [1, 2, 3], [(1, False), (1, False), (1, False), (1, False), (2, True)]),
 ]
 
 
